@@ -9,8 +9,8 @@ META = dict(
     level_note='Trusted: translator, shims, CBMC; floating-point expression trees are compared by structure (same operator tree on the '
                'same operands), so an algebraically equal re-association is reported as undecided after native replay, not as a violation; '
                'Surface::local_value and NaturalCoordinate::get_surface_point are contract stubs (any value).',
-    scope='get_temperature of uniform / adiabatic / linear for continental plate, oceanic plate, mantle layer, subducting plate, fault; chapman geotherm; plume uniform temperature; uniform raw velocity and uniform grains of the area features; smooth composition of the subducting plate (uniform composition of all families: C02); the ridge look-up Utilities::calculate_ridge_distance_and_spreading behind half-space / plate cooling',
-    not_covered=['tian2019 water content, mass conserving slab temperature, random models (no closed form documented)', 'the error-function / Fourier-sum bodies of the half-space, plate and constant-age plate models and the gaussian plume (std::upper_bound, loops over 100 terms)', 'fault smooth composition: its expression ((center - side)*S, signed distance) does not obviously match the parameter descriptions - not brought under contract, nothing claimed'],
+    scope='get_temperature of uniform / adiabatic / linear for continental plate, oceanic plate, mantle layer, subducting plate, fault; chapman geotherm; half-space cooling model of the oceanic plate (age = ridge distance / spreading velocity); plume uniform and Gaussian temperature; uniform raw velocity and uniform grains of the area features; smooth composition of the subducting plate (uniform composition of all families: C02); the ridge look-up Utilities::calculate_ridge_distance_and_spreading behind half-space / plate cooling',
+    not_covered=['tian2019 water content, mass conserving slab temperature, random models (no closed form documented)', 'the Fourier-sum bodies of the plate model and the constant-age plate model (loops over the summation terms)', 'fault smooth composition: its expression ((center - side)*S, signed distance) does not obviously match the parameter descriptions - not brought under contract, nothing claimed'],
     enforced_elsewhere={},
 )
 
@@ -118,6 +118,26 @@ for _fam, _fdir in [('ContinentalPlate', 'continental_plate'), ('OceanicPlate', 
         loops={(_gfn, 1): dict(contract='__CPROVER_assigns(i)\n'
                                         '__CPROVER_loop_invariant(i <= this_->compositions.n && (g_listed ==> i <= g_first))\n'
                                         '__CPROVER_decreases(this_->compositions.n - i)')}))
+
+# Gaussian plume temperature
+UNITS.append(dict(
+    name='plume_T_gaussian', enforce='Features_PlumeModels_Temperature_Gaussian_get_temperature', contracts='c05_plume_gaussian.c', harness='h_plume_gaussian',
+    targets=[dict(tu='source/world_builder/features/plume_models/temperature/gaussian.cc', qual='WorldBuilder::Features::PlumeModels::Temperature::Gaussian::get_temperature')],
+    replace=['wb_upper_bound_idx'], outline_fp='all', defines={'WB_VEC_CAP': 2, 'WB_CAP_vec_double': 4}, defines_thorough={'WB_CAP_vec_double': 12}, expect_fail=['REACHABILITY-GUARD'],
+    canaries=[(r'pP1_a\(center_temperature_local, relative_distance_from_center,', 'pP1_a(center_temperature_local, depth,', 'gaussian decays with depth instead of the distance from the centre'),
+              (r'if \(\(center_temperature_local < \(\(double\)0\)\)\)', 'if ((center_temperature_local <= ((double)0)))', 'centreline temperature 0 K treated as the adiabatic sentinel')]))
+
+# half-space cooling model of the oceanic plate (age = ridge distance / spreading velocity)
+_HSTUBS = ['Objects_Surface_local_value', 'Objects_NaturalCoordinate_get_surface_point', 'Utilities_calculate_ridge_distance_and_spreading', 'Objects_NaturalCoordinate_ctor__Point_3_CoordinateSystems_Interf']
+UNITS.append(dict(
+    name='oceanic_plate_T_half_space', enforce='Features_OceanicPlateModels_Temperature_HalfSpaceModel_get_temperature', contracts='c05_half_space.c', harness='h_half_space',
+    targets=[dict(tu='source/world_builder/features/oceanic_plate_models/temperature/half_space_model.cc',
+                  qual='WorldBuilder::Features::OceanicPlateModels::Temperature::HalfSpaceModel::get_temperature')],
+    stub=_HSTUBS, nothrow=['Objects_NaturalCoordinate_get_surface_point'], replace=_HSTUBS,
+    outline_fp='all', defines={'WB_VEC_CAP': 2, 'WB_CAP_vec_double': 4}, expect_fail=['REACHABILITY-GUARD'], timeout=600,
+    canaries=[(r'double age = E_div_a_a\(ridge_parameters\.data\[wb_idx\(\(\(unsigned long\)1\)', 'double age = E_div_a_a(ridge_parameters.data[wb_idx(((unsigned long)2)', 'age from the subducting velocity slot instead of the ridge distance'),
+              (r'\(age > \(\(double\)0\)\)', '(age >= ((double)0))', 'age 0 treated as cooled'),
+              (r'vec_double_push\(&(wb_t\d+), \(\(double\)0\)\)', r'vec_double_push(&\1, ((double)1))', 'ridge look-up asked with subducting velocity 1')]))
 
 def adiab(z, tp=TP, alpha=ALPHA, cp=CP):
     return tp * math.exp(alpha * G * z / cp)
